@@ -1,7 +1,7 @@
 (* C19 - helper scaling and invariance laws: structural part (for every libm).  Pinned theorems only. *)
 From Coq Require Import ZArith List Bool Reals Lra.
 From Flocq Require Import Core BinarySingleNaN.
-Require Import GV.FloatBase GV.FloatLemmas GV.AngleM GV.AngleProofs GV.GeonumM GV.GeonumProofs GV.TraitsM GV.TraitsProofs GV.BoundProofs GV.NewProofs GV.CtorProofs GV.ClosureProofs GV.PiBounds GV.TrigProofs GV.DotValue GV.ProdProofs GV.SumUpper GV.DistValue GV.FieldProofs.
+Require Import GV.FloatBase GV.FloatLemmas GV.AngleM GV.AngleProofs GV.GeonumM GV.GeonumProofs GV.TraitsM GV.TraitsProofs GV.BoundProofs GV.NewProofs GV.CtorProofs GV.ClosureProofs GV.PiBounds GV.TrigProofs GV.DotValue GV.ProdProofs GV.SumUpper GV.DistValue GV.FieldProofs GV.DirProofs GV.SumDir GV.SnellProofs.
 Import ListNotations.
 Open Scope R_scope.
 
@@ -84,3 +84,18 @@ Theorem C19_wire_field_value : forall r current permeability,
   Rabs (R_ (mag (wire_magnetic_field r current permeability)) - ideal) <= 42 / 10 * / 4503599627370496 * ideal.
 Proof. exact wire_field_value. Qed.
 Print Assumptions C19_wire_field_value.
+
+(* SNELL: sin(refracted direction) = sin(incident direction) / n with the REAL pi and sin, magnitude untouched, for
+   any libm whose sin is accurate to u on [-8,8] and whose asin call here returns a finite angle in [-2,2] whose sine
+   reproduces its argument within ua (relational premise on that one call); 1/1024 <= n <= 1024 *)
+Theorem C19_snell : forall (L : libm) (u ua : R) g ri, sin_acc L u -> u <= / 1000 -> canonp (rem (ang g)) ->
+  fin (mag ri) -> 1 / 1024 <= R_ (mag ri) <= 1024 ->
+  let arg := fdiv (sinF L (grade_angle (ang g))) (mag ri) in
+  let as_ := asinF L arg in
+  fin as_ -> Rabs (R_ as_) <= 2 -> Rabs (sin (R_ as_) - R_ arg) <= ua ->
+  let r := refract L g ri in
+  mag r = mag g /\ Canon (ang r) /\
+  Rabs (sin (dirR (ang r)) - sin (dir (ang g)) / R_ (mag ri))
+    <= ua + R_ eps10 + 3 / 100000000000000 + (u + 3 / 1000000000000000) / R_ (mag ri).
+Proof. exact snell. Qed.
+Print Assumptions C19_snell.
